@@ -61,6 +61,12 @@ def gen_case(ctx, stream, idx):
             p["typ"] = "Optional[%s]" % p["typ"]  # a nullable Enum column
         if p["typ"].startswith("Optional["):
             p.pop("default", None)
+    rd = __import__("random").Random(r.random())
+    if rd.random() < 0.2:
+        # a comment that opens with a dot (a file name, a fraction, an ellipsis): only a *trailing* full stop is punctuation
+        k_ = rd.choice(list(ir["params"]))
+        if ir["params"][k_].get("doc"):
+            ir["params"][k_]["doc"] = rd.choice((".env %s", ".5 means %s", "...or %s", ".%s")) % ir["params"][k_]["doc"]
     mode = r.choice(("declared", "declared", "candidate", "two_candidates", "none", "id_plain"))
     names = list(ir["params"])
     params = ir["params"]
